@@ -125,7 +125,22 @@ func (b *Body) findApply() *applyInfo {
 			ai.caseBlk[k] = s
 			for _, ins := range s.Instrs {
 				if call, ok := ins.(*ssa.Call); ok {
-					if f := call.Call.StaticCallee(); f != nil && recvTypeName(f) == "Patch" {
+					f := call.Call.StaticCallee()
+					if f == nil || f.Pkg != b.Lib || len(f.Blocks) == 0 {
+						continue
+					}
+					// a handler: a method of Patch, or a plain function, that is handed the root slot
+					// and the operation
+					takesSlot, takesOp := false, false
+					for _, a := range call.Call.Args {
+						if isRootSlotPtr(a.Type()) {
+							takesSlot = true
+						}
+						if isNamed(a.Type(), "Operation") {
+							takesOp = true
+						}
+					}
+					if recvTypeName(f) == "Patch" || (takesSlot && takesOp) {
 						ai.cases[k] = call
 						ai.handlers[k] = f
 						break
@@ -257,6 +272,7 @@ func ruleDispatch(c *Ctx) {
 		if b.Name == "v5" {
 			b.emptyPathIsRoot(l, ai)
 			b.oneOperationPerStep(l, ai)
+			b.decodeRefusals(l, "R-DISPATCH", []*ssa.Function{fnOf(b.Lib, "DecodePatch")})
 		}
 		// (a) case set and handlers
 		var got []string
